@@ -1,11 +1,33 @@
 /-
   C09 — The server answers every message correctly framed and never goes down.
-  FIRST-CLAIM version, for EVERY resolver (any function from a question to a result), both
-  `authoritative_only` settings and every byte string.
+  For EVERY resolver (any function from a question and a "recursive?" flag to a result), both
+  `authoritative_only` settings and every byte string.  Property theorems only; helper lemmas
+  (`srv_…`) and the auxiliary definitions `srvBase`, `srvRcodeReply`, `srvReplyOf`, `srvNotImp`,
+  `srvTcOf`, `srvTcOctet`, `srvSendUdp`, `srvSendTcp` (serialise with fallback, then frame),
+  `srvResultWF` live in
+  Proofs/ServerLemmas.lean.
+
+  What the model (and the Rust it mirrors) does that the prose of the property does not say:
+  * an *undecodable* buffer of two or more octets gets FORMERR even when its QR bit is set
+    (`C09_formerr` has no "not a response" hypothesis; `C09_reply_iff` is exact);
+  * a standard query with zero questions gets SERVFAIL (`C09_no_question`);
+  * FORMERR and NOTIMP replies always say RA = 1, also in authoritative-only mode
+    (`C09_ra_fixed_replies`, `C09_ra_all_replies_statement` and its refutation); RA reflects the
+    configuration on standard queries (`C09_ra`, `C09_ra_all_replies_partial`);
+  * a reply that `Message::to_octets` refuses (e.g. 65 536 records from the resolver) is replaced
+    by its SERVFAIL fallback (`serialise_response`, fix f78391d; before it nothing was sent):
+    `C09_fallback_shape`, `C09_fallback_only_on_encode_error`, `C09_serialise_reply_total`, and
+    `C09_every_query_answered` now holds for every resolver.
 -/
-import Resolved.Model.Server
+import Resolved.Props.C03
+import Resolved.Props.C04
+import Resolved.Proofs.ServerLemmas
 
 namespace Resolved
+
+open Gen
+
+/-! ## 0. First-claim theorems (kept) -/
 
 /-- UDP replies never exceed 512 octets. -/
 theorem C09_udp_frame_le (bytes out : List UInt8) (h : udpFrame bytes = some out) :
@@ -52,5 +74,1091 @@ theorem C09_reply_header (authOnly : Bool) (resolver : ServerResolver) (buf : Li
       repeat' split
       all_goals simp [makeResponse]
     · cases h; simp [makeResponse]
+
+/-! ## 1. Which buffers get a reply -/
+
+/-- **Silence is exact.**  `handle_raw_message` stays silent exactly on buffers of fewer than two
+    octets (no ID to answer to) and on buffers that decode to a message flagged as a response. -/
+theorem C09_reply_iff (authOnly : Bool) (resolver : ServerResolver) (buf : List UInt8) :
+    handleRawMessage authOnly resolver buf = none ↔
+      buf.length < 2 ∨ ∃ m, decodeMessage buf = .ok m ∧ m.header.isResponse = true := by
+  cases hd : decodeMessage buf with
+  | error e =>
+    rw [srv_handle_error hd]
+    constructor
+    · intro h
+      left
+      exact (C03_no_id_iff_short buf e hd).mp (by simpa using h)
+    · rintro (h | ⟨m, hm, _⟩)
+      · simp [(C03_no_id_iff_short buf e hd).mpr h]
+      · cases hm
+  | ok m =>
+    have h12 := srv_decode_ok_len hd
+    cases hr : m.header.isResponse with
+    | true =>
+      rw [srv_handle_response hd hr]
+      exact ⟨fun _ => .inr ⟨m, rfl, hr⟩, fun _ => rfl⟩
+    | false =>
+      constructor
+      · intro h
+        by_cases ho : m.header.opcode = OPCODE_STANDARD
+        · rw [srv_handle_query hd hr ho] at h; cases h
+        · rw [srv_handle_notimp hd hr ho] at h; cases h
+      · rintro (h | ⟨m', hm', hr'⟩)
+        · omega
+        · cases hm'; rw [hr] at hr'; cases hr'
+
+/-- Every reply carries the ID found in the first two octets of the buffer and has QR set —
+    whether the buffer decoded or not. -/
+theorem C09_reply_id (authOnly : Bool) (resolver : ServerResolver) (buf : List UInt8) (reply : Message)
+    (h2 : 2 ≤ buf.length) (h : handleRawMessage authOnly resolver buf = some reply) :
+    reply.header.id = (buf[0]'(by omega)).toNat * 256 + (buf[1]'(by omega)).toNat ∧
+    reply.header.isResponse = true ∧ reply.header.isTruncated = false := by
+  cases hd : decodeMessage buf with
+  | error e =>
+    rw [srv_handle_error hd, C03_id_on_error buf e hd h2] at h
+    cases h
+    exact ⟨rfl, rfl, rfl⟩
+  | ok m =>
+    have hid : m.header.id = (buf[0]'(by omega)).toNat * 256 + (buf[1]'(by omega)).toNat := by
+      have h1 := (C03_section_counts buf m hd).2.1
+      unfold nextU16 at h1
+      rw [dif_pos (by omega)] at h1
+      simp only [Option.some.injEq, Prod.mk.injEq] at h1
+      exact h1.1.symm
+    cases hr : m.header.isResponse with
+    | true => rw [srv_handle_response hd hr] at h; cases h
+    | false =>
+      by_cases ho : m.header.opcode = OPCODE_STANDARD
+      · rw [srv_handle_query hd hr ho] at h
+        cases h
+        rcases srv_rabr_cases authOnly resolver m with h' | h' | ⟨q, _, _, h'⟩ <;> rw [h']
+        · exact ⟨hid, rfl, rfl⟩
+        · exact ⟨hid, rfl, rfl⟩
+        · obtain ⟨f1, f2, _, f4, _⟩ := srv_replyOf_fields authOnly m
+            (resolver q (m.header.recursionDesired && !authOnly))
+          exact ⟨f1.trans hid, f2, f4⟩
+      · rw [srv_handle_notimp hd hr ho] at h
+        cases h
+        exact ⟨hid, rfl, rfl⟩
+
+/-- **Exactly one reply message** for every buffer of two or more octets that is not a decodable
+    response: `handle_raw_message` is a function, and it is defined there. -/
+theorem C09_one_reply (authOnly : Bool) (resolver : ServerResolver) (buf : List UInt8)
+    (h2 : 2 ≤ buf.length) (hq : ∀ m, decodeMessage buf = .ok m → m.header.isResponse = false) :
+    ∃ reply, handleRawMessage authOnly resolver buf = some reply ∧
+      ∀ reply', handleRawMessage authOnly resolver buf = some reply' → reply' = reply := by
+  cases h : handleRawMessage authOnly resolver buf with
+  | none =>
+    rcases (C09_reply_iff authOnly resolver buf).mp h with h' | ⟨m, hm, hr⟩
+    · omega
+    · rw [hq m hm] at hr; cases hr
+  | some reply => exact ⟨reply, rfl, fun _ h' => by cases h'; rfl⟩
+
+/-! ## 2. FORMERR -/
+
+/-- An undecodable buffer of at least two octets gets the FORMERR reply for the ID in its first
+    two octets: RCODE 1, QR set, opcode 0, no flags but RA, all four sections empty. -/
+theorem C09_formerr (authOnly : Bool) (resolver : ServerResolver) (buf : List UInt8) (e : DErr)
+    (hd : decodeMessage buf = .error e) (h2 : 2 ≤ buf.length) :
+    handleRawMessage authOnly resolver buf =
+      some (makeFormatErrorResponse ((buf[0]'(by omega)).toNat * 256 + (buf[1]'(by omega)).toNat)) := by
+  rw [srv_handle_error hd, C03_id_on_error buf e hd h2]; rfl
+
+/-- the FORMERR message, field by field -/
+theorem C09_formerr_shape (id : Nat) :
+    (makeFormatErrorResponse id).header.id = id ∧
+    (makeFormatErrorResponse id).header.rcode = RCODE_FORMERR ∧ RCODE_FORMERR = 1 ∧
+    (makeFormatErrorResponse id).header.isResponse = true ∧
+    (makeFormatErrorResponse id).header.opcode = 0 ∧
+    (makeFormatErrorResponse id).header.isAuthoritative = false ∧
+    (makeFormatErrorResponse id).header.isTruncated = false ∧
+    (makeFormatErrorResponse id).header.recursionDesired = false ∧
+    (makeFormatErrorResponse id).questions = [] ∧ (makeFormatErrorResponse id).answers = [] ∧
+    (makeFormatErrorResponse id).authority = [] ∧ (makeFormatErrorResponse id).additional = [] :=
+  ⟨rfl, rfl, rfl, rfl, rfl, rfl, rfl, rfl, rfl, rfl, rfl, rfl⟩
+
+/-- … and on the wire: twelve octets, `ID, 0x80, 0x81, 0 × 8` (QR; RA + RCODE 1; four zero
+    counts); they fit every frame unchanged. -/
+theorem C09_formerr_wire (id : Nat) :
+    encodeMessage (makeFormatErrorResponse id) =
+      .ok (u16Bytes id ++ [128, 129, 0, 0, 0, 0, 0, 0, 0, 0]) ∧
+    srvSendUdp (some (makeFormatErrorResponse id)) =
+      some (u16Bytes id ++ [128, 129, 0, 0, 0, 0, 0, 0, 0, 0]) ∧
+    srvSendTcp (some (makeFormatErrorResponse id)) =
+      some ([0, 12] ++ (u16Bytes id ++ [128, 129, 0, 0, 0, 0, 0, 0, 0, 0])) := by
+  refine ⟨srv_formerr_encode id, ?_, ?_⟩
+  · simp only [srvSendUdp, srv_serialise_ok (srv_formerr_encode id)]; rfl
+  · simp only [srvSendTcp, srv_serialise_ok (srv_formerr_encode id)]
+    simp [tcpFrame, u16Bytes, setTcBit, u8]
+
+/-! ## 3. NOTIMP -/
+
+/-- A decodable query whose opcode is not "standard query" gets NOTIMP: the question section is
+    echoed, no records, AA and TC clear, RD echoed, the resolver is not consulted. -/
+theorem C09_notimp (authOnly : Bool) (buf : List UInt8) (m : Message)
+    (hd : decodeMessage buf = .ok m) (hq : m.header.isResponse = false)
+    (ho : m.header.opcode ≠ OPCODE_STANDARD) :
+    ∃ reply, (∀ resolver, handleRawMessage authOnly resolver buf = some reply) ∧
+      reply.header.rcode = RCODE_NOTIMP ∧ RCODE_NOTIMP = 4 ∧
+      reply.header.id = m.header.id ∧ reply.header.isResponse = true ∧
+      reply.header.opcode = m.header.opcode ∧ reply.header.isAuthoritative = false ∧
+      reply.header.isTruncated = false ∧
+      reply.header.recursionDesired = m.header.recursionDesired ∧
+      reply.questions = m.questions ∧ reply.answers = [] ∧ reply.authority = [] ∧
+      reply.additional = [] ∧
+      reply = { makeResponse m with header := { (makeResponse m).header with rcode := RCODE_NOTIMP } } :=
+  ⟨srvNotImp m, fun _ => srv_handle_notimp hd hq ho,
+    rfl, rfl, rfl, rfl, rfl, rfl, rfl, rfl, rfl, rfl, rfl, rfl, rfl⟩
+
+/-! ## 4. REFUSED and the zero-question case -/
+
+/-- A decodable standard query with two or more questions, or with one question of unknown type
+    or class, gets REFUSED with empty record sections and AA clear; the reply is the same for
+    every resolver (the resolver is not consulted). -/
+theorem C09_refused (authOnly : Bool) (buf : List UInt8) (m : Message)
+    (hd : decodeMessage buf = .ok m) (hq : m.header.isResponse = false)
+    (ho : m.header.opcode = OPCODE_STANDARD)
+    (hbad : 2 ≤ m.questions.length ∨ ∃ q, m.questions = [q] ∧ questionIsUnknown q = true) :
+    ∃ reply, (∀ resolver, handleRawMessage authOnly resolver buf = some reply) ∧
+      reply.header.rcode = RCODE_REFUSED ∧ RCODE_REFUSED = 5 ∧
+      reply.answers = [] ∧ reply.authority = [] ∧ reply.additional = [] ∧
+      reply.header.isAuthoritative = false ∧ reply.questions = m.questions ∧
+      reply.header.id = m.header.id ∧ reply.header.isResponse = true ∧
+      reply.header.opcode = m.header.opcode ∧ reply.header.isTruncated = false ∧
+      reply.header.recursionDesired = m.header.recursionDesired ∧
+      reply.header.recursionAvailable = !authOnly := by
+  have ht : triage m = .error () := by
+    rcases hbad with h | ⟨q, h1, h2⟩
+    · exact srv_triage_many h
+    · exact srv_triage_one_unknown h1 h2
+  refine ⟨srvRcodeReply authOnly m RCODE_REFUSED, fun resolver => ?_,
+    rfl, rfl, rfl, rfl, rfl, rfl, rfl, rfl, rfl, rfl, rfl, rfl, rfl⟩
+  rw [srv_handle_query hd hq ho, srv_rabr_refused authOnly resolver m ht]
+
+/-- A decodable standard query with an empty question section: the model (as the Rust: `triage`
+    returns `Ok(None)`, nothing is resolved, and the final "no answer, no authority, NOERROR"
+    check fires) yields SERVFAIL with all sections empty, for every resolver. -/
+theorem C09_no_question (authOnly : Bool) (buf : List UInt8) (m : Message)
+    (hd : decodeMessage buf = .ok m) (hq : m.header.isResponse = false)
+    (ho : m.header.opcode = OPCODE_STANDARD) (hz : m.questions = []) :
+    ∃ reply, (∀ resolver, handleRawMessage authOnly resolver buf = some reply) ∧
+      reply.header.rcode = RCODE_SERVFAIL ∧ RCODE_SERVFAIL = 2 ∧
+      reply.questions = [] ∧ reply.answers = [] ∧ reply.authority = [] ∧ reply.additional = [] ∧
+      reply.header.isAuthoritative = false ∧
+      reply.header.id = m.header.id ∧ reply.header.isResponse = true ∧
+      reply.header.opcode = m.header.opcode ∧ reply.header.isTruncated = false ∧
+      reply.header.recursionDesired = m.header.recursionDesired ∧
+      reply.header.recursionAvailable = !authOnly := by
+  refine ⟨srvRcodeReply authOnly m RCODE_SERVFAIL, fun resolver => ?_,
+    rfl, rfl, hz, rfl, rfl, rfl, rfl, rfl, rfl, rfl, rfl, rfl, rfl⟩
+  rw [srv_handle_query hd hq ho, srv_rabr_no_question authOnly resolver m (srv_triage_nil hz)]
+
+/-! ## 5. RA and the recursion flag handed to the resolver -/
+
+/-- On every standard query RA says whether recursion is offered: RA = ¬ authoritative_only. -/
+theorem C09_ra (authOnly : Bool) (resolver : ServerResolver) (m : Message) :
+    (resolveAndBuildResponse authOnly resolver m).header.recursionAvailable = !authOnly := by
+  rcases srv_rabr_cases authOnly resolver m with h | h | ⟨q, _, _, h⟩ <;> rw [h]
+  · rfl
+  · rfl
+  · exact (srv_replyOf_fields authOnly m _).2.2.2.2.2.1
+
+/-- the same through `handle_raw_message` -/
+theorem C09_ra_handle (authOnly : Bool) (resolver : ServerResolver) (buf : List UInt8)
+    (m reply : Message) (hd : decodeMessage buf = .ok m) (ho : m.header.opcode = OPCODE_STANDARD)
+    (h : handleRawMessage authOnly resolver buf = some reply) :
+    reply.header.recursionAvailable = !authOnly := by
+  cases hr : m.header.isResponse with
+  | true => rw [srv_handle_response hd hr] at h; cases h
+  | false =>
+    rw [srv_handle_query hd hr ho] at h
+    cases h
+    exact C09_ra authOnly resolver m
+
+/-- FORMERR and NOTIMP replies say RA = 1 whatever the configuration (so "RA reflects whether
+    recursion is offered" holds for standard queries only). -/
+theorem C09_ra_fixed_replies (id : Nat) (m : Message) :
+    (makeFormatErrorResponse id).header.recursionAvailable = true ∧
+    (srvNotImp m).header.recursionAvailable = true := ⟨rfl, rfl⟩
+
+/-- The resolver is consulted at most once, for the single question, with the flag
+    `RD ∧ ¬ authoritative_only`: two resolvers that agree on that one input give the same reply.
+    In particular an authoritative-only server never asks for recursion. -/
+theorem C09_resolver_input (authOnly : Bool) (r1 r2 : ServerResolver) (m : Message)
+    (hagree : ∀ q ∈ m.questions,
+      r1 q (m.header.recursionDesired && !authOnly) = r2 q (m.header.recursionDesired && !authOnly)) :
+    resolveAndBuildResponse authOnly r1 m = resolveAndBuildResponse authOnly r2 m := by
+  rcases srv_triage_cases m with h | h | ⟨q, h⟩
+  · rw [srv_rabr_refused _ _ _ h, srv_rabr_refused _ _ _ h]
+  · rw [srv_rabr_no_question _ _ _ h, srv_rabr_no_question _ _ _ h]
+  · rw [srv_rabr_question _ _ _ _ h, srv_rabr_question _ _ _ _ h,
+      hagree q (by rw [(srv_triage_some h).1]; simp)]
+
+theorem C09_resolver_input_handle (authOnly : Bool) (r1 r2 : ServerResolver) (buf : List UInt8)
+    (hagree : ∀ m, decodeMessage buf = .ok m → ∀ q ∈ m.questions,
+      r1 q (m.header.recursionDesired && !authOnly) = r2 q (m.header.recursionDesired && !authOnly)) :
+    handleRawMessage authOnly r1 buf = handleRawMessage authOnly r2 buf := by
+  unfold handleRawMessage
+  cases hd : decodeMessage buf with
+  | error e => rfl
+  | ok m => simp only [C09_resolver_input authOnly r1 r2 m (hagree m hd)]
+
+/-- an authoritative-only server hands `false` to the resolver -/
+theorem C09_auth_only_no_recursion (m : Message) :
+    (m.header.recursionDesired && !true) = false := by simp
+
+/-! ## 6. SERVFAIL -/
+
+/-- No reply to a standard query says NOERROR with neither an answer nor an authority record. -/
+theorem C09_never_empty_noerror (authOnly : Bool) (resolver : ServerResolver) (m : Message) :
+    ¬ ((resolveAndBuildResponse authOnly resolver m).header.rcode = RCODE_NOERROR ∧
+        (resolveAndBuildResponse authOnly resolver m).answers = [] ∧
+        (resolveAndBuildResponse authOnly resolver m).authority = []) := by
+  rcases srv_rabr_cases authOnly resolver m with h | h | ⟨q, _, _, h⟩ <;> rw [h]
+  · intro hc; exact absurd hc.1 (by show RCODE_REFUSED ≠ RCODE_NOERROR; decide)
+  · intro hc; exact absurd hc.1 (by show RCODE_SERVFAIL ≠ RCODE_NOERROR; decide)
+  · exact (srv_replyOf_servfail authOnly m _).1
+
+/-- … nor does any reply of `handle_raw_message` at all. -/
+theorem C09_never_empty_noerror_handle (authOnly : Bool) (resolver : ServerResolver)
+    (buf : List UInt8) (reply : Message) (h : handleRawMessage authOnly resolver buf = some reply) :
+    ¬ (reply.header.rcode = RCODE_NOERROR ∧ reply.answers = [] ∧ reply.authority = []) := by
+  cases hd : decodeMessage buf with
+  | error e =>
+    rw [srv_handle_error hd] at h
+    cases hid : e.id with
+    | none => rw [hid] at h; cases h
+    | some id =>
+      rw [hid] at h; cases h
+      intro hc; exact absurd hc.1 (by show RCODE_FORMERR ≠ RCODE_NOERROR; decide)
+  | ok m =>
+    cases hr : m.header.isResponse with
+    | true => rw [srv_handle_response hd hr] at h; cases h
+    | false =>
+      by_cases ho : m.header.opcode = OPCODE_STANDARD
+      · rw [srv_handle_query hd hr ho] at h; cases h
+        exact C09_never_empty_noerror authOnly resolver m
+      · rw [srv_handle_notimp hd hr ho] at h; cases h
+        intro hc; exact absurd hc.1 (by show RCODE_NOTIMP ≠ RCODE_NOERROR; decide)
+
+/-- A SERVFAIL reply carries no answer, no authority record and is not authoritative. -/
+theorem C09_servfail_empty (authOnly : Bool) (resolver : ServerResolver) (m : Message)
+    (h : (resolveAndBuildResponse authOnly resolver m).header.rcode = RCODE_SERVFAIL) :
+    (resolveAndBuildResponse authOnly resolver m).answers = [] ∧
+    (resolveAndBuildResponse authOnly resolver m).authority = [] ∧
+    (resolveAndBuildResponse authOnly resolver m).additional = [] ∧
+    (resolveAndBuildResponse authOnly resolver m).header.isAuthoritative = false := by
+  rcases srv_rabr_cases authOnly resolver m with h' | h' | ⟨q, _, _, h'⟩ <;> rw [h'] at h ⊢
+  · exact ⟨rfl, rfl, rfl, rfl⟩
+  · exact ⟨rfl, rfl, rfl, rfl⟩
+  · obtain ⟨h1, h2, h3⟩ := (srv_replyOf_servfail authOnly m _).2 h
+    exact ⟨h1, h2, (srv_replyOf_fields authOnly m _).2.2.2.2.2.2.2.2.2, h3⟩
+
+/-- SERVFAIL is sent exactly when there is nothing to say: no question, a resolver error, or a
+    non-authoritative result with no record and no SOA. -/
+theorem C09_servfail_iff (authOnly : Bool) (resolver : ServerResolver) (m : Message) :
+    (resolveAndBuildResponse authOnly resolver m).header.rcode = RCODE_SERVFAIL ↔
+      (m.questions = [] ∨
+       ∃ q, m.questions = [q] ∧ questionIsUnknown q = false ∧
+         ((∃ e, resolver q (m.header.recursionDesired && !authOnly) = .error e) ∨
+          resolver q (m.header.recursionDesired && !authOnly) = .ok (.nonAuthoritative [] none))) := by
+  rcases srv_triage_cases m with h | h | ⟨q, h⟩
+  · rw [srv_rabr_refused _ _ _ h]
+    constructor
+    · intro hc; exact absurd hc (by show RCODE_REFUSED ≠ RCODE_SERVFAIL; decide)
+    · rintro (hz | ⟨q, h1, h2, _⟩)
+      · rw [srv_triage_nil hz] at h; cases h
+      · rw [srv_triage_one_known h1 h2] at h; cases h
+  · rw [srv_rabr_no_question _ _ _ h]
+    constructor
+    · intro _
+      left
+      match hq : m.questions with
+      | [] => rfl
+      | [q] =>
+        by_cases hk : questionIsUnknown q = true
+        · rw [srv_triage_one_unknown hq hk] at h; cases h
+        · rw [srv_triage_one_known hq (by simpa using hk)] at h; cases h
+      | _ :: _ :: _ => rw [srv_triage_many (by rw [hq]; simp)] at h; cases h
+    · intro _; rfl
+  · obtain ⟨h1, h2⟩ := srv_triage_some h
+    rw [srv_rabr_question _ _ _ _ h, (srv_replyOf_aa_rcode authOnly m _).2.2.1]
+    constructor
+    · intro hc; exact .inr ⟨q, h1, h2, hc⟩
+    · rintro (hz | ⟨q', h1', _, hc⟩)
+      · rw [hz] at h1; cases h1
+      · rw [h1] at h1'; cases h1'; exact hc
+
+/-! ## 7. The reply to one known question -/
+
+/-- One question of known type and class: the reply is a function of the resolver's result.
+    AA is set exactly on authoritative results (answer or name error); RCODE is NXDOMAIN exactly
+    on an authoritative name error, and otherwise NOERROR or SERVFAIL; the answer section is
+    exactly the resolver's records, the authority section exactly the SOA when there is one, the
+    additional section is always empty. -/
+theorem C09_aa_iff (authOnly : Bool) (resolver : ServerResolver) (m : Message) (q : Question)
+    (hq : m.questions = [q]) (hk : questionIsUnknown q = false) :
+    let res := resolver q (m.header.recursionDesired && !authOnly)
+    let reply := resolveAndBuildResponse authOnly resolver m
+    (reply.header.isAuthoritative = true ↔
+      ((∃ rrs soa, res = .ok (.authoritative rrs soa)) ∨
+       ∃ soa, res = .ok (.authoritativeNameError soa))) ∧
+    (reply.header.rcode = RCODE_NAMEERROR ↔ ∃ soa, res = .ok (.authoritativeNameError soa)) ∧
+    (reply.header.rcode = RCODE_SERVFAIL ↔
+      ((∃ e, res = .error e) ∨ res = .ok (.nonAuthoritative [] none))) ∧
+    (reply.header.rcode = RCODE_NOERROR ∨ reply.header.rcode = RCODE_NAMEERROR ∨
+      reply.header.rcode = RCODE_SERVFAIL) ∧
+    reply.answers = (match res with | .ok rec => rec.rrs | .error _ => []) ∧
+    reply.authority = (match res with | .ok rec => rec.soaRR.toList | .error _ => []) ∧
+    reply.additional = [] ∧ reply.questions = [q] := by
+  intro res reply
+  have hr : reply = srvReplyOf authOnly m res :=
+    srv_rabr_question authOnly resolver m q (srv_triage_one_known hq hk)
+  obtain ⟨a1, a2, a3, a4⟩ := srv_replyOf_aa_rcode authOnly m res
+  obtain ⟨_, _, _, _, _, _, f7, f8, f9, f10⟩ := srv_replyOf_fields authOnly m res
+  rw [hr]
+  refine ⟨a1, a2, a3, a4, ?_, ?_, f10, f7.trans hq⟩
+  · rw [f8]; cases res <;> rfl
+  · rw [f9]; cases res <;> rfl
+
+/-! ## 8. UDP framing -/
+
+/-- **UDP replies: at most 512 octets, TC set exactly when cut short.**  For what
+    `send_udp_bytes_to` puts on the wire (`out`) given the serialised reply (`bytes`):
+    a reply longer than 512 octets is cut to exactly 512 with the TC bit (bit 1 of octet 2) set;
+    a reply of at most 512 octets keeps its length and has the TC bit cleared; in both cases
+    every octet but octet 2 is unchanged, and octet 2 is unchanged outside the TC bit. -/
+theorem C09_udp_tc_iff (bytes out : List UInt8) (h : udpFrame bytes = some out) :
+    (bytes.length > 512 →
+      out.length = 512 ∧ srvTcOf out = some true ∧ ∀ i, i < 512 → i ≠ 2 → out[i]? = bytes[i]?) ∧
+    (bytes.length ≤ 512 →
+      out.length = bytes.length ∧ srvTcOf out = some false ∧ ∀ i, i ≠ 2 → out[i]? = bytes[i]?) ∧
+    (∃ b b', bytes[2]? = some b ∧ out[2]? = some b' ∧ b'.toNat &&& 253 = b.toNat &&& 253 ∧
+      (testBit b'.toNat HEADER_MASK_TC = true ↔ bytes.length > 512)) := by
+  have h12 : 12 ≤ bytes.length := by
+    apply Classical.byContradiction; intro hn
+    rw [(srv_udpFrame_none_iff bytes).mpr (by omega)] at h; cases h
+  have hb : bytes[2]? = some (bytes[2]'(by omega)) := List.getElem?_eq_getElem (by omega)
+  by_cases hbig : bytes.length > 512
+  · rw [srv_udpFrame_big hbig] at h
+    cases h
+    refine ⟨fun _ => ⟨?_, ?_, ?_⟩, fun hle => absurd hle (by omega), ?_⟩
+    · rw [List.length_take, srv_setTcBit_length]; omega
+    · rw [srv_tcOf_take _ _ (by omega), srv_setTcBit_tc _ _ (by omega)]
+    · intro i hi hne
+      rw [srv_take_get, if_pos hi, srv_setTcBit_get, if_neg hne]
+    · refine ⟨_, srvTcOctet true (bytes[2]'(by omega)), hb, ?_, srv_tcOctet_others _ _, ?_⟩
+      · rw [srv_take_get, if_pos (by omega), srv_setTcBit_get, if_pos rfl, hb]; rfl
+      · rw [srv_tcOctet_bit]; simp [hbig]
+  · rw [srv_udpFrame_small h12 (by omega)] at h
+    cases h
+    refine ⟨fun hgt => absurd hgt hbig, fun _ => ⟨srv_setTcBit_length _ _, ?_, ?_⟩, ?_⟩
+    · exact srv_setTcBit_tc _ _ (by omega)
+    · intro i hne
+      rw [srv_setTcBit_get, if_neg hne]
+    · refine ⟨_, srvTcOctet false (bytes[2]'(by omega)), hb, ?_, srv_tcOctet_others _ _, ?_⟩
+      · rw [srv_setTcBit_get, if_pos rfl, hb]; rfl
+      · rw [srv_tcOctet_bit]; simp [hbig]
+
+/-- "cut short" said with lengths: the datagram is shorter than the serialised reply exactly when
+    its TC bit is set. -/
+theorem C09_udp_cut_iff_tc (bytes out : List UInt8) (h : udpFrame bytes = some out) :
+    (out.length < bytes.length ↔ srvTcOf out = some true) ∧ out.length = min bytes.length 512 := by
+  obtain ⟨h1, h2, _⟩ := C09_udp_tc_iff bytes out h
+  by_cases hbig : bytes.length > 512
+  · obtain ⟨a, b, _⟩ := h1 hbig
+    exact ⟨⟨fun _ => b, fun _ => by omega⟩, by omega⟩
+  · obtain ⟨a, b, _⟩ := h2 (by omega)
+    refine ⟨⟨fun hlt => by omega, fun ht => ?_⟩, by omega⟩
+    rw [b] at ht; cases ht
+
+/-- What "TC bit" means here (`srvTcOf`): octet 2 exists and its bit of value 2 is set — in the
+    mask form, the `/ 2 % 2` form, and as the decoder's `testBit … HEADER_MASK_TC`. -/
+theorem C09_tc_bit_def (out : List UInt8) :
+    (srvTcOf out = some true ↔ ∃ b, out[2]? = some b ∧ b.toNat &&& 2 ≠ 0) ∧
+    (srvTcOf out = some true ↔ ∃ b, out[2]? = some b ∧ b.toNat / 2 % 2 = 1) ∧
+    (srvTcOf out = some false ↔ ∃ b, out[2]? = some b ∧ b.toNat &&& 2 = 0) := by
+  have key : ∀ x : Fin 256, (x.val &&& 2 ≠ 0 ↔ x.val / 2 % 2 = 1) := by decide +kernel
+  unfold srvTcOf
+  cases h : out[2]? with
+  | none => simp
+  | some b =>
+    have hk := key ⟨b.toNat, b.toNat_lt⟩
+    simp only at hk
+    simp only [Option.map_some, Option.some.injEq, exists_eq_left', testBit, HEADER_MASK_TC,
+      bne_iff_ne, ne_eq, ← hk, bne_eq_false_iff_eq, and_self]
+
+/-- The TC bit of the datagram is the `isTruncated` the receiver decodes. -/
+theorem C09_tc_bit_is_decoded_flag (out : List UInt8) (m : Message)
+    (h : decodeMessage out = .ok m) : srvTcOf out = some m.header.isTruncated :=
+  srv_decode_tc h
+
+/-! ## 9. TCP framing -/
+
+/-- A reply longer than 65 535 octets is cut to 65 535, announced as such, with TC set. -/
+theorem C09_tcp_frame_big (bytes out : List UInt8) (hlen : bytes.length > 65535)
+    (h : tcpFrame bytes = some out) :
+    out.take 2 = u16Bytes 65535 ∧ u16Bytes 65535 = [255, 255] ∧ out.length = 65537 ∧
+    srvTcOf (out.drop 2) = some true ∧
+    (∀ i, i < 65535 → i ≠ 2 → (out.drop 2)[i]? = bytes[i]?) ∧
+    (∃ b b', bytes[2]? = some b ∧ (out.drop 2)[2]? = some b' ∧
+      b'.toNat &&& 253 = b.toNat &&& 253) := by
+  rw [srv_tcpFrame_big hlen] at h
+  cases h
+  have hd : (u16Bytes 65535 ++ List.take 65535 (setTcBit bytes true)).drop 2
+      = List.take 65535 (setTcBit bytes true) := by simp [u16Bytes]
+  rw [hd]
+  have hb : bytes[2]? = some (bytes[2]'(by omega)) := List.getElem?_eq_getElem (by omega)
+  refine ⟨by simp [u16Bytes], by decide, ?_, ?_, ?_, ?_⟩
+  · rw [List.length_append, List.length_take, srv_setTcBit_length, u16Bytes_length]; omega
+  · rw [srv_tcOf_take _ _ (by omega), srv_setTcBit_tc _ _ (by omega)]
+  · intro i hi hne
+    rw [srv_take_get, if_pos hi, srv_setTcBit_get, if_neg hne]
+  · refine ⟨_, srvTcOctet true (bytes[2]'(by omega)), hb, ?_, srv_tcOctet_others _ _⟩
+    rw [srv_take_get, if_pos (by omega), srv_setTcBit_get, if_pos rfl, hb]; rfl
+
+/-- A reply of at most 65 535 octets goes out whole behind its exact length, with the TC bit
+    cleared and every other bit unchanged. -/
+theorem C09_tcp_frame_small (bytes out : List UInt8) (hlen : bytes.length ≤ 65535)
+    (h : tcpFrame bytes = some out) :
+    out.take 2 = u16Bytes bytes.length ∧ out.length = 2 + bytes.length ∧
+    (out.drop 2).length = bytes.length ∧ srvTcOf (out.drop 2) = some false ∧
+    (∀ i, i ≠ 2 → (out.drop 2)[i]? = bytes[i]?) ∧
+    (∃ b b', bytes[2]? = some b ∧ (out.drop 2)[2]? = some b' ∧
+      b'.toNat &&& 253 = b.toNat &&& 253) ∧
+    (srvTcOf bytes = some false → out = u16Bytes bytes.length ++ bytes) := by
+  have h12 : 12 ≤ bytes.length := by
+    apply Classical.byContradiction; intro hn
+    rw [(srv_tcpFrame_none_iff bytes).mpr (by omega)] at h; cases h
+  rw [srv_tcpFrame_small h12 hlen] at h
+  cases h
+  have hd : (u16Bytes bytes.length ++ setTcBit bytes false).drop 2 = setTcBit bytes false := by
+    simp [u16Bytes]
+  rw [hd]
+  have hb : bytes[2]? = some (bytes[2]'(by omega)) := List.getElem?_eq_getElem (by omega)
+  refine ⟨by simp [u16Bytes], ?_, srv_setTcBit_length _ _, srv_setTcBit_tc _ _ (by omega), ?_, ?_, ?_⟩
+  · rw [List.length_append, srv_setTcBit_length, u16Bytes_length]
+  · intro i hne
+    rw [srv_setTcBit_get, if_neg hne]
+  · refine ⟨_, srvTcOctet false (bytes[2]'(by omega)), hb, ?_, srv_tcOctet_others _ _⟩
+    rw [srv_setTcBit_get, if_pos rfl, hb]; rfl
+  · intro htc; rw [srv_setTcBit_same _ _ htc]
+
+/-- The announced length is the real one: for a reply of at most 65 535 octets the two prefix
+    octets read back (big-endian) as the number of octets that follow. -/
+theorem C09_tcp_prefix_value (bytes out : List UInt8) (hlen : bytes.length ≤ 65535)
+    (h : tcpFrame bytes = some out) :
+    nextU16 out 0 = some ((out.drop 2).length, 2) := by
+  obtain ⟨h1, h2, h3, _⟩ := C09_tcp_frame_small bytes out hlen h
+  have ho : out = u16Bytes bytes.length ++ out.drop 2 := by
+    rw [← h1, List.take_append_drop]
+  rw [h3, ho]
+  exact nextU16_at [] _ _ (by omega)
+
+/-! ## 10. Serialisation, the SERVFAIL fallback, and the senders never panic -/
+
+/-- Every serialised message has at least the twelve header octets. -/
+theorem C09_encode_ge_12 (m : Message) (bs : List UInt8) (h : encodeMessage m = .ok bs) :
+    12 ≤ bs.length := srv_encodeMessage_len h
+
+/-- **The fallback never replaces a serialisable reply**: when `to_octets` succeeds,
+    `serialise_response` returns the reply itself with exactly those octets. -/
+theorem C09_fallback_only_on_encode_error (m : Message) (bs : List UInt8)
+    (he : encodeMessage m = .ok bs) : serialiseResponse m = some (m, bs) :=
+  srv_serialise_ok he
+
+/-- Conversely, whatever `serialise_response` returns is a message with its own serialisation,
+    and that message is the reply or — only when the reply does not serialise — its fallback. -/
+theorem C09_serialise_result (m m' : Message) (bs : List UInt8)
+    (h : serialiseResponse m = some (m', bs)) :
+    encodeMessage m' = .ok bs ∧ 12 ≤ bs.length ∧
+    (m' = m ∨ (m' = servfailFallback m ∧ ∃ e, encodeMessage m = .error e)) := by
+  obtain ⟨h1, h2⟩ := srv_serialise_some h
+  exact ⟨h1, srv_encodeMessage_len h1, h2⟩
+
+/-- **Shape of the fallback.**  When `to_octets` fails on the reply `m`, what is serialised and
+    framed instead is `servfailFallback m`: RCODE SERVFAIL, the same ID, QR, opcode, TC, RD, RA
+    and question section, no record at all, AA clear. -/
+theorem C09_fallback_shape (m : Message) (e : EErr) (he : encodeMessage m = .error e) :
+    (∀ m' bs, serialiseResponse m = some (m', bs) →
+      m' = servfailFallback m ∧ encodeMessage (servfailFallback m) = .ok bs) ∧
+    (∀ bs, encodeMessage (servfailFallback m) = .ok bs →
+      serialiseResponse m = some (servfailFallback m, bs) ∧
+      srvSendUdp (some m) = udpFrame bs ∧ srvSendTcp (some m) = tcpFrame bs) ∧
+    (servfailFallback m).header.rcode = RCODE_SERVFAIL ∧
+    (servfailFallback m).header.id = m.header.id ∧
+    (servfailFallback m).header.isResponse = m.header.isResponse ∧
+    (servfailFallback m).header.opcode = m.header.opcode ∧
+    (servfailFallback m).header.isAuthoritative = false ∧
+    (servfailFallback m).header.isTruncated = m.header.isTruncated ∧
+    (servfailFallback m).header.recursionDesired = m.header.recursionDesired ∧
+    (servfailFallback m).header.recursionAvailable = m.header.recursionAvailable ∧
+    (servfailFallback m).questions = m.questions ∧ (servfailFallback m).answers = [] ∧
+    (servfailFallback m).authority = [] ∧ (servfailFallback m).additional = [] := by
+  refine ⟨?_, ?_, rfl, rfl, rfl, rfl, rfl, rfl, rfl, rfl, rfl, rfl, rfl, rfl⟩
+  · intro m' bs h
+    obtain ⟨h1, h2 | ⟨h2, _⟩⟩ := srv_serialise_some h
+    · subst h2; rw [he] at h1; cases h1
+    · subst h2; exact ⟨rfl, h1⟩
+  · intro bs hf
+    have hs : serialiseResponse m = some (servfailFallback m, bs) := by
+      rw [srv_serialise_err he, hf]
+    exact ⟨hs, by simp only [srvSendUdp, hs], by simp only [srvSendTcp, hs]⟩
+
+/-- **Key lemma: every reply goes out.**  For every reply `handle_raw_message` builds — whatever
+    the resolver put into it — `serialise_response` yields a message and at least twelve octets:
+    the question section is echoed from a decoded query (or empty, FORMERR), so the fallback's
+    counts fit 16 bits and `to_octets` cannot fail on it. -/
+theorem C09_serialise_reply_total (authOnly : Bool) (resolver : ServerResolver) (buf : List UInt8)
+    (reply : Message) (h : handleRawMessage authOnly resolver buf = some reply) :
+    (∃ bs, encodeMessage (servfailFallback reply) = .ok bs) ∧
+    ∃ m' bs, serialiseResponse reply = some (m', bs) ∧ encodeMessage m' = .ok bs ∧
+      12 ≤ bs.length ∧ (m' = reply ∨ (m' = servfailFallback reply ∧ ∃ e, encodeMessage reply = .error e)) := by
+  have hq := srv_reply_questions_lt h
+  obtain ⟨m', bs, hs⟩ := srv_serialise_total reply hq
+  obtain ⟨h1, h2, h3⟩ := C09_serialise_result reply m' bs hs
+  exact ⟨srv_fallback_encodes reply hq, m', bs, hs, h1, h2, h3⟩
+
+/-- The `< 12 octets` panic of `send_udp_bytes_to` / `send_tcp_bytes` is unreachable from the
+    server, and so is the "could not serialise fallback message" branch: whatever
+    `handle_raw_message` returns is serialised (itself or its fallback) and framed. -/
+theorem C09_senders_never_panic (authOnly : Bool) (resolver : ServerResolver) (buf : List UInt8)
+    (m : Message) (h : handleRawMessage authOnly resolver buf = some m) :
+    ∃ m' bs, serialiseResponse m = some (m', bs) ∧
+      (udpFrame bs).isSome = true ∧ (tcpFrame bs).isSome = true := by
+  obtain ⟨_, m', bs, hs, _, h12, _⟩ := C09_serialise_reply_total authOnly resolver buf m h
+  refine ⟨m', bs, hs, ?_, ?_⟩
+  · cases hf : udpFrame bs with
+    | none => have := (srv_udpFrame_none_iff bs).mp hf; omega
+    | some _ => rfl
+  · cases hf : tcpFrame bs with
+    | none => have := (srv_tcpFrame_none_iff bs).mp hf; omega
+    | some _ => rfl
+
+theorem C09_send_some (authOnly : Bool) (resolver : ServerResolver) (buf : List UInt8)
+    (m : Message) (h : handleRawMessage authOnly resolver buf = some m) :
+    (srvSendUdp (some m)).isSome = true ∧ (srvSendTcp (some m)).isSome = true := by
+  obtain ⟨m', bs, hs, hu, ht⟩ := C09_senders_never_panic authOnly resolver buf m h
+  simp only [srvSendUdp, srvSendTcp, hs]
+  exact ⟨hu, ht⟩
+
+/-- **Nothing goes out exactly when there is no reply message**, i.e. exactly on buffers of fewer
+    than two octets and on decodable responses — for every resolver. -/
+theorem C09_udp_silent_iff (authOnly : Bool) (resolver : ServerResolver) (buf : List UInt8) :
+    (serveUdp authOnly resolver buf = none ↔ handleRawMessage authOnly resolver buf = none) ∧
+    (serveUdp authOnly resolver buf = none ↔
+      buf.length < 2 ∨ ∃ m, decodeMessage buf = .ok m ∧ m.header.isResponse = true) := by
+  have key : serveUdp authOnly resolver buf = none ↔ handleRawMessage authOnly resolver buf = none := by
+    rw [srv_serveUdp_eq]
+    cases hh : handleRawMessage authOnly resolver buf with
+    | none => simp [srvSendUdp]
+    | some m =>
+      have := (C09_send_some authOnly resolver buf m hh).1
+      constructor
+      · intro hn; rw [hn] at this; cases this
+      · intro hn; cases hn
+  exact ⟨key, key.trans (C09_reply_iff authOnly resolver buf)⟩
+
+/-- The fallback of a reply to a standard query is precisely the SERVFAIL reply the server sends
+    when the resolver fails: an unserialisable result and a resolver error look the same. -/
+theorem C09_fallback_is_servfail_reply (authOnly : Bool) (resolver : ServerResolver) (m : Message) :
+    servfailFallback (resolveAndBuildResponse authOnly resolver m)
+      = srvRcodeReply authOnly m RCODE_SERVFAIL := by
+  rcases srv_rabr_cases authOnly resolver m with h | h | ⟨q, _, _, h⟩ <;> rw [h]
+  · rfl
+  · rfl
+  · exact srv_fallback_replyOf authOnly m _
+
+/-- When the reply does not serialise, the fallback's octets are what is framed; it has TC clear,
+    so up to 512 octets (65 535 for TCP) they go out unchanged. -/
+theorem C09_fallback_sent (authOnly : Bool) (resolver : ServerResolver) (buf : List UInt8)
+    (m : Message) (e : EErr) (h : handleRawMessage authOnly resolver buf = some m)
+    (he : encodeMessage m = .error e) :
+    ∃ bs, encodeMessage (servfailFallback m) = .ok bs ∧
+      serialiseResponse m = some (servfailFallback m, bs) ∧
+      serveUdp authOnly resolver buf = udpFrame bs ∧
+      (bs.length ≤ 512 → serveUdp authOnly resolver buf = some bs) ∧
+      (bs.length ≤ 65535 → ∀ n, n ≤ buf.length →
+        serveTcp authOnly resolver n buf = some (u16Bytes bs.length ++ bs)) := by
+  obtain ⟨⟨bs, hf⟩, _⟩ := C09_serialise_reply_total authOnly resolver buf m h
+  obtain ⟨hs, hu, ht⟩ := (C09_fallback_shape m e he).2.1 bs hf
+  have h12 := srv_encodeMessage_len hf
+  have h2 : 2 ≤ buf.length := by
+    apply Classical.byContradiction; intro hn
+    rw [(C09_reply_iff authOnly resolver buf).mpr (.inl (by omega))] at h; cases h
+  have htc : srvTcOf bs = some false := by
+    rw [srv_encodeMessage_tc hf]
+    show some m.header.isTruncated = some false
+    rw [(C09_reply_id authOnly resolver buf m h2 h).2.2]
+  refine ⟨bs, hf, hs, ?_, ?_, ?_⟩
+  · rw [srv_serveUdp_eq, h, hu]
+  · intro hle
+    rw [srv_serveUdp_eq, h, hu, srv_udpFrame_small h12 hle, srv_setTcBit_same _ _ htc]
+  · intro hle n hn
+    rw [srv_serveTcp_eq, srv_tcpRead_full hn]
+    simp only
+    rw [h, ht, srv_tcpFrame_small h12 hle, srv_setTcBit_same _ _ htc]
+
+/-! ## 11. TCP reads -/
+
+/-- A TCP read that ends before the announced length: FORMERR for the ID in the first two octets
+    received when there are two, nothing otherwise; a complete read is handled like a datagram
+    (and framed for TCP). -/
+theorem C09_tcp_short_read (authOnly : Bool) (resolver : ServerResolver) (expected : Nat)
+    (received : List UInt8) :
+    (received.length < expected →
+      serveTcp authOnly resolver expected received =
+        if h2 : 2 ≤ received.length then
+          srvSendTcp (some (makeFormatErrorResponse
+            ((received[0]'(by omega)).toNat * 256 + (received[1]'(by omega)).toNat)))
+        else none) ∧
+    (expected ≤ received.length →
+      serveTcp authOnly resolver expected received =
+        srvSendTcp (handleRawMessage authOnly resolver received)) := by
+  constructor
+  · intro h
+    rw [srv_serveTcp_eq, srv_tcpRead_short h]
+    by_cases h2 : 2 ≤ received.length
+    · simp only [dif_pos h2]; rfl
+    · simp only [dif_neg h2]; rfl
+  · intro h
+    rw [srv_serveTcp_eq, srv_tcpRead_full h]
+
+/-- the short-read FORMERR on the wire: `00 0C`, the ID, `80 81` and eight zero octets -/
+theorem C09_tcp_short_read_wire (authOnly : Bool) (resolver : ServerResolver) (expected : Nat)
+    (received : List UInt8) (h : received.length < expected) (h2 : 2 ≤ received.length) :
+    serveTcp authOnly resolver expected received =
+      some (([0, 12] : List UInt8) ++
+        (u16Bytes ((received[0]'(by omega)).toNat * 256 + (received[1]'(by omega)).toNat)
+          ++ [128, 129, 0, 0, 0, 0, 0, 0, 0, 0])) := by
+  rw [(C09_tcp_short_read authOnly resolver expected received).1 h, dif_pos h2]
+  exact (C09_formerr_wire _).2.2
+
+/-- `srvSendTcp`/`srvSendUdp` are what `serve_tcp`/`serve_udp` do after the message is chosen. -/
+theorem C09_serve_is_send (authOnly : Bool) (resolver : ServerResolver) (buf : List UInt8) :
+    serveUdp authOnly resolver buf = srvSendUdp (handleRawMessage authOnly resolver buf) ∧
+    ∀ n, n ≤ buf.length →
+      serveTcp authOnly resolver n buf = srvSendTcp (handleRawMessage authOnly resolver buf) :=
+  ⟨srv_serveUdp_eq _ _ _, fun n hn => (C09_tcp_short_read authOnly resolver n buf).2 hn⟩
+
+/-! ## 12. One reply, and it reads back as the reply -/
+
+/-- At most one thing is sent per datagram / connection, and it depends on the resolver only
+    through its values (extensionally equal resolvers give the same octets). -/
+theorem C09_one_reply_function (authOnly : Bool) (r1 r2 : ServerResolver)
+    (hext : ∀ q b, r1 q b = r2 q b) (buf : List UInt8) (n : Nat) :
+    serveUdp authOnly r1 buf = serveUdp authOnly r2 buf ∧
+    serveTcp authOnly r1 n buf = serveTcp authOnly r2 n buf ∧
+    (∀ o1 o2, serveUdp authOnly r1 buf = some o1 → serveUdp authOnly r1 buf = some o2 → o1 = o2) := by
+  have : r1 = r2 := funext fun q => funext fun b => hext q b
+  subst this
+  exact ⟨rfl, rfl, fun o1 o2 h1 h2 => by rw [h1] at h2; cases h2; rfl⟩
+
+/-- Every reply message of the server has TC clear, so framing a reply that fits changes nothing:
+    up to 512 octets the datagram is the serialisation itself; up to 65 535 octets the TCP
+    message is the length prefix followed by the serialisation itself. -/
+theorem C09_frames_of_fitting_reply (authOnly : Bool) (resolver : ServerResolver)
+    (buf : List UInt8) (m : Message) (bs : List UInt8)
+    (h : handleRawMessage authOnly resolver buf = some m) (he : encodeMessage m = .ok bs) :
+    (bs.length ≤ 512 → serveUdp authOnly resolver buf = some bs) ∧
+    (bs.length ≤ 65535 → ∀ n, n ≤ buf.length →
+      serveTcp authOnly resolver n buf = some (u16Bytes bs.length ++ bs)) := by
+  have h12 := srv_encodeMessage_len he
+  have htc : srvTcOf bs = some false := by
+    rw [srv_encodeMessage_tc he]
+    cases hl : buf.length
+    · have := (C09_reply_iff authOnly resolver buf).mpr (.inl (by omega))
+      rw [this] at h; cases h
+    · rename_i k
+      cases k with
+      | zero =>
+        have := (C09_reply_iff authOnly resolver buf).mpr (.inl (by omega))
+        rw [this] at h; cases h
+      | succ k => rw [(C09_reply_id authOnly resolver buf m (by omega) h).2.2]
+  constructor
+  · intro hle
+    rw [srv_serveUdp_eq, h]
+    simp only [srvSendUdp, srv_serialise_ok he]
+    rw [srv_udpFrame_small h12 hle, srv_setTcBit_same _ _ htc]
+  · intro hle n hn
+    rw [(C09_serve_is_send authOnly resolver buf).2 n hn, h]
+    simp only [srvSendTcp, srv_serialise_ok he]
+    rw [srv_tcpFrame_small h12 hle, srv_setTcBit_same _ _ htc]
+
+/-- **The datagram reads back as the reply.**  If the resolver's records are serialisable
+    (`srvResultWF`: well-formed names, 16/32-bit fields, RDATA matching the type's layout — what
+    every decoded or zone-file record satisfies), then a reply that fits 512 octets is received
+    by `Message::from_octets` as exactly the message `handle_raw_message` built. -/
+theorem C09_udp_reply_decodes (authOnly : Bool) (resolver : ServerResolver)
+    (hres : ∀ q b, srvResultWF (resolver q b))
+    (buf : List UInt8) (m : Message) (bs : List UInt8)
+    (h : handleRawMessage authOnly resolver buf = some m) (he : encodeMessage m = .ok bs)
+    (hle : bs.length ≤ 512) :
+    serveUdp authOnly resolver buf = some bs ∧ decodeMessage bs = .ok m := by
+  refine ⟨(C09_frames_of_fitting_reply authOnly resolver buf m bs h he).1 hle, ?_⟩
+  apply C04_roundtrip m bs _ he
+  cases hd : decodeMessage buf with
+  | error e =>
+    rw [srv_handle_error hd] at h
+    have h2 : 2 ≤ buf.length := by
+      apply Classical.byContradiction; intro hn
+      rw [(C03_no_id_iff_short buf e hd).mpr (by omega)] at h; cases h
+    rw [C03_id_on_error buf e hd h2] at h
+    cases h
+    apply srv_formerr_wf
+    have := (buf[0]'(by omega)).toNat_lt
+    have := (buf[1]'(by omega)).toNat_lt
+    omega
+  | ok q =>
+    have hwf := C04_decode_wf buf q hd
+    cases hr : q.header.isResponse with
+    | true => rw [srv_handle_response hd hr] at h; cases h
+    | false =>
+      by_cases ho : q.header.opcode = OPCODE_STANDARD
+      · rw [srv_handle_query hd hr ho] at h; cases h
+        rcases srv_rabr_cases authOnly resolver q with h' | h' | ⟨qq, _, _, h'⟩ <;> rw [h']
+        · exact srv_rcodeReply_wf _ _ _ hwf (by decide)
+        · exact srv_rcodeReply_wf _ _ _ hwf (by decide)
+        · exact srv_replyOf_wf _ _ _ hwf (hres _ _)
+      · rw [srv_handle_notimp hd hr ho] at h; cases h
+        exact srv_notImp_wf q hwf
+
+/-! ## 13. Every query is answered — for every resolver -/
+
+/-- a query for the root name, type A, class IN (17 octets) -/
+def C09ex.rootQuery : Message :=
+  { header := ⟨0x1234, false, 0, false, false, true, false, 0⟩
+    questions := [⟨Name.root, 1, 1⟩], answers := [], authority := [], additional := [] }
+
+def C09ex.rootQueryBytes : List UInt8 := [0x12, 0x34, 1, 0, 0, 1, 0, 0, 0, 0, 0, 0, 0, 0, 1, 0, 1]
+
+theorem C09ex.rootQuery_decodes : decodeMessage C09ex.rootQueryBytes = .ok C09ex.rootQuery :=
+  C04_roundtrip _ _ (by decide) (by decide)
+
+/-- **Every query is answered.**  For EVERY resolver (no hypothesis on what it returns), both
+    settings of `authoritative_only` and every buffer of two or more octets that does not decode
+    to a message flagged as a response: a datagram is sent; over TCP a message is sent when the
+    buffer was read in full; and a TCP read cut short after two or more octets gets its
+    (FORMERR) message too.  (With the SERVFAIL fallback of `serialise_response`; before that fix
+    a resolver result with 65 536 records silenced the server.) -/
+theorem C09_every_query_answered (authOnly : Bool) (resolver : ServerResolver) (buf : List UInt8)
+    (h2 : 2 ≤ buf.length)
+    (hq : ∀ m, decodeMessage buf = .ok m → m.header.isResponse = false) :
+    (serveUdp authOnly resolver buf).isSome = true ∧
+    (∀ n, n ≤ buf.length → (serveTcp authOnly resolver n buf).isSome = true) ∧
+    (∀ n, buf.length < n → (serveTcp authOnly resolver n buf).isSome = true) := by
+  obtain ⟨reply, hreply, _⟩ := C09_one_reply authOnly resolver buf h2 hq
+  obtain ⟨hu, ht⟩ := C09_send_some authOnly resolver buf reply hreply
+  refine ⟨?_, ?_, ?_⟩
+  · rw [srv_serveUdp_eq, hreply]; exact hu
+  · intro n hn
+    rw [(C09_serve_is_send authOnly resolver buf).2 n hn, hreply]; exact ht
+  · intro n hn
+    rw [C09_tcp_short_read_wire authOnly resolver n buf hn h2]; rfl
+
+/-- the short-read clause needs no hypothesis on the content at all -/
+theorem C09_tcp_short_read_answered (authOnly : Bool) (resolver : ServerResolver) (expected : Nat)
+    (received : List UInt8) (h : received.length < expected) (h2 : 2 ≤ received.length) :
+    (serveTcp authOnly resolver expected received).isSome = true := by
+  rw [C09_tcp_short_read_wire authOnly resolver expected received h h2]; rfl
+
+/-- When the resolver's results are serialisable and stay below 65 536 records the reply itself
+    serialises: the fallback is never used. -/
+theorem C09_no_fallback_for_serialisable_resolver (authOnly : Bool) (resolver : ServerResolver)
+    (hres : ∀ q b, srvResultWF (resolver q b))
+    (hcount : ∀ q b rec, resolver q b = .ok rec → rec.rrs.length < 65536)
+    (buf : List UInt8) (reply : Message)
+    (hreply : handleRawMessage authOnly resolver buf = some reply) :
+    ∃ bs, encodeMessage reply = .ok bs ∧ serialiseResponse reply = some (reply, bs) := by
+  have henc : ∃ bs, encodeMessage reply = .ok bs := by
+    cases hd : decodeMessage buf with
+    | error e =>
+      rw [srv_handle_error hd] at hreply
+      cases hid : e.id with
+      | none => rw [hid] at hreply; cases hreply
+      | some id => rw [hid] at hreply; cases hreply; exact ⟨_, srv_formerr_encode _⟩
+    | ok q =>
+      have hwf := C04_decode_wf buf q hd
+      obtain ⟨cq, _, _, _⟩ := decodeMessage_counts hd
+      cases hr : q.header.isResponse with
+      | true => rw [srv_handle_response hd hr] at hreply; cases hreply
+      | false =>
+      by_cases ho : q.header.opcode = OPCODE_STANDARD
+      · rw [srv_handle_query hd hr ho] at hreply; cases hreply
+        rcases srv_rabr_cases authOnly resolver q with h' | h' | ⟨qq, _, _, h'⟩ <;> rw [h']
+        · exact C04_encode_questions_only_ok _ cq rfl rfl rfl
+        · exact C04_encode_questions_only_ok _ cq rfl rfl rfl
+        · obtain ⟨_, _, _, _, _, _, f7, f8, f9, f10⟩ := srv_replyOf_fields authOnly q
+            (resolver qq (q.header.recursionDesired && !authOnly))
+          apply C04_encode_total _ (srv_replyOf_wf _ _ _ hwf (hres _ _))
+          · rw [f7]; exact cq
+          · rw [f8]
+            cases hres' : resolver qq (q.header.recursionDesired && !authOnly) with
+            | error _ => simp [srvAnswersOf]
+            | ok rec => exact hcount _ _ rec hres'
+          · rw [f9]
+            cases resolver qq (q.header.recursionDesired && !authOnly) with
+            | error _ => simp [srvAuthorityOf]
+            | ok rec => simp only [srvAuthorityOf]; cases rec.soaRR <;> simp
+          · rw [f10]; simp
+      · rw [srv_handle_notimp hd hr ho] at hreply; cases hreply
+        exact C04_encode_questions_only_ok _ cq rfl rfl rfl
+  obtain ⟨bs, he⟩ := henc
+  exact ⟨bs, he, srv_serialise_ok he⟩
+
+/-- The fallback can only be needed for a reply that carries resolver data: FORMERR, NOTIMP,
+    REFUSED and the SERVFAIL replies always serialise themselves. -/
+theorem C09_fallback_only_with_records (authOnly : Bool) (resolver : ServerResolver)
+    (buf : List UInt8) (reply : Message) (e : EErr)
+    (h : handleRawMessage authOnly resolver buf = some reply)
+    (he : encodeMessage reply = .error e) : reply.answers ≠ [] ∨ reply.authority ≠ [] := by
+  apply Classical.byContradiction
+  intro hn
+  have ha : reply.answers = [] := Classical.byContradiction fun hc => hn (.inl hc)
+  have hb : reply.authority = [] := Classical.byContradiction fun hc => hn (.inr hc)
+  have hadd : reply.additional = [] := by
+    cases hd : decodeMessage buf with
+    | error e' =>
+      rw [srv_handle_error hd] at h
+      cases hid : e'.id with
+      | none => rw [hid] at h; cases h
+      | some id => rw [hid] at h; cases h; rfl
+    | ok q =>
+      cases hr : q.header.isResponse with
+      | true => rw [srv_handle_response hd hr] at h; cases h
+      | false =>
+        by_cases ho : q.header.opcode = OPCODE_STANDARD
+        · rw [srv_handle_query hd hr ho] at h; cases h
+          rcases srv_rabr_cases authOnly resolver q with h' | h' | ⟨qq, _, _, h'⟩ <;> rw [h']
+          · rfl
+          · rfl
+          · exact (srv_replyOf_fields authOnly q _).2.2.2.2.2.2.2.2.2
+        · rw [srv_handle_notimp hd hr ho] at h; cases h; rfl
+  obtain ⟨bs, hok⟩ := srv_encode_questions_only reply (srv_reply_questions_lt h) ha hb hadd
+  rw [hok] at he; cases he
+
+/-- 65 536 (or more) records from the resolver: the reply does not serialise
+    (`CounterTooLarge`), and what goes out — over UDP and TCP — is the SERVFAIL fallback
+    `12 34 81 82 | 0 1 0 0 0 0 0 0 | 00 0001 0001`: question echoed, no records. -/
+theorem C09ex.too_many_records_servfail (rrs : List RR) (hlen : 65536 ≤ rrs.length) :
+    (∃ e, encodeMessage (resolveAndBuildResponse false (fun _ _ => .ok (.nonAuthoritative rrs none))
+      C09ex.rootQuery) = .error e) ∧
+    serveUdp false (fun _ _ => .ok (.nonAuthoritative rrs none)) C09ex.rootQueryBytes =
+      some [0x12, 0x34, 0x81, 0x82, 0, 1, 0, 0, 0, 0, 0, 0, 0, 0, 1, 0, 1] ∧
+    serveTcp false (fun _ _ => .ok (.nonAuthoritative rrs none)) 17 C09ex.rootQueryBytes =
+      some [0, 17, 0x12, 0x34, 0x81, 0x82, 0, 1, 0, 0, 0, 0, 0, 0, 0, 0, 1, 0, 1] := by
+  have hq : handleRawMessage false (fun _ _ => .ok (.nonAuthoritative rrs none)) C09ex.rootQueryBytes
+      = some (resolveAndBuildResponse false (fun _ _ => .ok (.nonAuthoritative rrs none))
+          C09ex.rootQuery) :=
+    srv_handle_query C09ex.rootQuery_decodes rfl rfl
+  have hr : resolveAndBuildResponse false (fun _ _ => .ok (.nonAuthoritative rrs none)) C09ex.rootQuery
+      = srvReplyOf false C09ex.rootQuery (.ok (.nonAuthoritative rrs none)) :=
+    srv_rabr_question false _ _ _ (srv_triage_one_known rfl (by decide))
+  have hfb := C09_fallback_is_servfail_reply false (fun _ _ => .ok (.nonAuthoritative rrs none))
+    C09ex.rootQuery
+  obtain ⟨_, _, _, _, _, _, f7, f8, _⟩ :=
+    srv_replyOf_fields false C09ex.rootQuery (.ok (.nonAuthoritative rrs none))
+  rw [← hr] at f7 f8
+  generalize resolveAndBuildResponse false (fun _ _ => .ok (.nonAuthoritative rrs none))
+    C09ex.rootQuery = M at hq hfb f7 f8
+  have h1 : usizeToU16 M.questions.length = .ok 1 := by rw [f7]; rfl
+  have h2 : usizeToU16 M.answers.length = .error (.counterTooLarge rrs.length 16) := by
+    rw [f8]
+    show usizeToU16 rrs.length = _
+    unfold usizeToU16
+    rw [if_neg (by omega)]
+  have he : encodeMessage M = .error (.counterTooLarge rrs.length 16) := by
+    unfold encodeMessage
+    rw [h1, h2]
+  have hf : encodeMessage (servfailFallback M) =
+      .ok [0x12, 0x34, 0x81, 0x82, 0, 1, 0, 0, 0, 0, 0, 0, 0, 0, 1, 0, 1] := by
+    rw [hfb]; decide
+  obtain ⟨bs, hf', _, _, hu, ht⟩ := C09_fallback_sent false _ _ M _ hq he
+  rw [hf] at hf'; cases hf'
+  exact ⟨⟨_, he⟩, hu (by decide), ht (by decide) 17 (by decide)⟩
+
+/-- the concrete instance: exactly 65 536 copies of one A record -/
+example : serveUdp false (fun _ _ => .ok (.nonAuthoritative
+      (List.replicate 65536 ⟨Name.root, 1, [.a 0], 1, 0⟩) none)) C09ex.rootQueryBytes =
+    some [0x12, 0x34, 0x81, 0x82, 0, 1, 0, 0, 0, 0, 0, 0, 0, 0, 1, 0, 1] :=
+  (C09ex.too_many_records_servfail _ (Nat.le_of_eq List.length_replicate.symm)).2.1
+
+/-- The full claim "RA reflects whether recursion is offered" for every reply … -/
+def C09_ra_all_replies_statement : Prop :=
+  ∀ (authOnly : Bool) (resolver : ServerResolver) (buf : List UInt8) (reply : Message),
+    handleRawMessage authOnly resolver buf = some reply →
+    reply.header.recursionAvailable = !authOnly
+
+/-- … is false: the FORMERR reply of an authoritative-only server to the three octets
+    `AB CD 80` says RA = 1 (and so does every NOTIMP reply, `C09_ra_fixed_replies`). -/
+theorem C09_ra_all_replies_false : ¬ C09_ra_all_replies_statement := by
+  intro hall
+  have hd : decodeMessage [0xAB, 0xCD, 0x80] = .error (.headerTooShort 0xABCD) := by decide
+  have h := hall true (fun _ _ => .error .timeout) [0xAB, 0xCD, 0x80] _
+    (C09_formerr true _ _ _ hd (by decide))
+  cases h
+
+/-- The true part: on every decodable standard query RA = ¬ authoritative_only. -/
+theorem C09_ra_all_replies_partial (authOnly : Bool) (resolver : ServerResolver) (buf : List UInt8)
+    (m reply : Message) (hd : decodeMessage buf = .ok m) (ho : m.header.opcode = OPCODE_STANDARD)
+    (h : handleRawMessage authOnly resolver buf = some reply) :
+    reply.header.recursionAvailable = !authOnly :=
+  C09_ra_handle authOnly resolver buf m reply hd ho h
+
+
+/-! ## 14. Non-vacuity: concrete buffers through the theorems -/
+
+namespace C09ex
+
+/-- a 12-octet header, ID 0xABCD, RD set, QDCOUNT 0 -/
+def emptyQueryBytes : List UInt8 := [0xAB, 0xCD, 1, 0, 0, 0, 0, 0, 0, 0, 0, 0]
+def emptyQuery : Message :=
+  { header := ⟨0xABCD, false, 0, false, false, true, false, 0⟩
+    questions := [], answers := [], authority := [], additional := [] }
+
+/-- a 12-octet header with opcode 2 (STATUS) -/
+def statusBytes : List UInt8 := [0, 5, 0x10, 0, 0, 0, 0, 0, 0, 0, 0, 0]
+/-- a 12-octet header flagged as a response -/
+def responseBytes : List UInt8 := [0, 1, 0x80, 0, 0, 0, 0, 0, 0, 0, 0, 0]
+/-- a query for the root name with the unassigned type 0xFF00 -/
+def oddTypeBytes : List UInt8 := [0x12, 0x34, 1, 0, 0, 1, 0, 0, 0, 0, 0, 0, 0, 0xFF, 0, 0, 1]
+def oddTypeQuery : Message :=
+  { header := ⟨0x1234, false, 0, false, false, true, false, 0⟩
+    questions := [⟨Name.root, 0xFF00, 1⟩], answers := [], authority := [], additional := [] }
+
+def soa : RR := ⟨Name.root, 6, [.name Name.root, .name Name.root, .u32 1, .u32 2, .u32 3, .u32 4, .u32 5], 1, 300⟩
+def aRec : RR := ⟨Name.root, 1, [.a 0x7F000001], 1, 300⟩
+/-- a resolver that is authoritative for the root name -/
+def authResolver : ServerResolver := fun _ _ => .ok (.authoritative [aRec] soa)
+def failResolver : ServerResolver := fun _ _ => .error .timeout
+
+theorem emptyQuery_decodes : decodeMessage emptyQueryBytes = .ok emptyQuery := by decide
+theorem oddType_decodes : decodeMessage oddTypeBytes = .ok oddTypeQuery :=
+  C04_roundtrip _ _ (by decide) (by decide)
+
+end C09ex
+
+/-- zero questions: SERVFAIL `AB CD 81 82 0…` on the wire, for every resolver -/
+example (r : ServerResolver) :
+    serveUdp false r C09ex.emptyQueryBytes = some [0xAB, 0xCD, 0x81, 0x82, 0, 0, 0, 0, 0, 0, 0, 0] := by
+  obtain ⟨reply, h, _⟩ := C09_no_question false _ _ C09ex.emptyQuery_decodes rfl rfl rfl
+  have h' : handleRawMessage false r C09ex.emptyQueryBytes =
+      some (srvRcodeReply false C09ex.emptyQuery RCODE_SERVFAIL) := by
+    rw [srv_handle_query C09ex.emptyQuery_decodes rfl rfl,
+      srv_rabr_no_question _ _ _ (srv_triage_nil rfl)]
+  rw [srv_serveUdp_eq, h']
+  decide
+
+/-- the same query to an authoritative-only server: RA clear (`02` instead of `82`) -/
+example (r : ServerResolver) :
+    serveUdp true r C09ex.emptyQueryBytes = some [0xAB, 0xCD, 0x81, 0x02, 0, 0, 0, 0, 0, 0, 0, 0] := by
+  have h' : handleRawMessage true r C09ex.emptyQueryBytes =
+      some (srvRcodeReply true C09ex.emptyQuery RCODE_SERVFAIL) := by
+    rw [srv_handle_query C09ex.emptyQuery_decodes rfl rfl,
+      srv_rabr_no_question _ _ _ (srv_triage_nil rfl)]
+  rw [srv_serveUdp_eq, h']
+  decide
+
+/-- the 17-octet root query, answered authoritatively: ID echoed, `85` = QR AA RD, `80` = RA +
+    NOERROR, 1 question / 1 answer / 1 authority record, 65 octets; the datagram decodes back to
+    exactly the reply message (through `C09_udp_reply_decodes`) -/
+def C09ex.authReplyBytes : List UInt8 :=
+  [18, 52, 133, 128, 0, 1, 0, 1, 0, 1, 0, 0, 0, 0, 1, 0, 1, 0, 0, 1, 0, 1, 0, 0, 1, 44, 0, 4, 127, 0,
+   0, 1, 0, 0, 6, 0, 1, 0, 0, 1, 44, 0, 22, 0, 0, 0, 0, 0, 1, 0, 0, 0, 2, 0, 0, 0, 3, 0, 0, 0, 4, 0,
+   0, 0, 5]
+
+example : serveUdp false C09ex.authResolver C09ex.rootQueryBytes = some C09ex.authReplyBytes ∧
+    decodeMessage C09ex.authReplyBytes =
+      .ok (srvReplyOf false C09ex.rootQuery (.ok (.authoritative [C09ex.aRec] C09ex.soa))) := by
+  have hq : handleRawMessage false C09ex.authResolver C09ex.rootQueryBytes
+      = some (srvReplyOf false C09ex.rootQuery (.ok (.authoritative [C09ex.aRec] C09ex.soa))) := by
+    rw [srv_handle_query C09ex.rootQuery_decodes rfl rfl,
+      srv_rabr_question false _ _ _ (srv_triage_one_known rfl (by decide))]
+    rfl
+  have he : encodeMessage (srvReplyOf false C09ex.rootQuery
+      (.ok (.authoritative [C09ex.aRec] C09ex.soa))) = .ok C09ex.authReplyBytes := by decide
+  exact C09_udp_reply_decodes false C09ex.authResolver
+    (fun _ _ => by unfold C09ex.authResolver srvResultWF; decide) _ _ _ hq he (by decide)
+
+/-- … and with a failing resolver: SERVFAIL, question echoed -/
+example : serveUdp false C09ex.failResolver C09ex.rootQueryBytes =
+    some [0x12, 0x34, 0x81, 0x82, 0, 1, 0, 0, 0, 0, 0, 0, 0, 0, 1, 0, 1] := by
+  have hq : handleRawMessage false C09ex.failResolver C09ex.rootQueryBytes
+      = some (srvReplyOf false C09ex.rootQuery (.error .timeout)) := by
+    rw [srv_handle_query C09ex.rootQuery_decodes rfl rfl,
+      srv_rabr_question false _ _ _ (srv_triage_one_known rfl (by decide))]
+    rfl
+  rw [srv_serveUdp_eq, hq]
+  decide
+
+/-- unknown query type: REFUSED (`85` = RA + RCODE 5), whatever the resolver -/
+example (r : ServerResolver) : serveUdp false r C09ex.oddTypeBytes =
+    some [0x12, 0x34, 0x81, 0x85, 0, 1, 0, 0, 0, 0, 0, 0, 0, 0xFF, 0, 0, 1] := by
+  have hq : handleRawMessage false r C09ex.oddTypeBytes
+      = some (srvRcodeReply false C09ex.oddTypeQuery RCODE_REFUSED) := by
+    rw [srv_handle_query C09ex.oddType_decodes rfl rfl,
+      srv_rabr_refused false _ _ (srv_triage_one_unknown rfl (by decide))]
+  rw [srv_serveUdp_eq, hq]
+  decide
+/-- the hypotheses of `C09_refused` are satisfiable -/
+example : ∃ q, C09ex.oddTypeQuery.questions = [q] ∧ questionIsUnknown q = true :=
+  ⟨_, rfl, by decide⟩
+
+/-- opcode 2: NOTIMP (`10` = opcode echoed; `84` = RA + RCODE 4) -/
+example (r : ServerResolver) : serveUdp true r C09ex.statusBytes =
+    some [0, 5, 0x90, 0x84, 0, 0, 0, 0, 0, 0, 0, 0] := by
+  have hd : decodeMessage C09ex.statusBytes =
+      .ok ⟨⟨5, false, 2, false, false, false, false, 0⟩, [], [], [], []⟩ := by decide
+  rw [srv_serveUdp_eq, srv_handle_notimp hd rfl (by decide)]
+  decide
+
+/-- three octets, QR bit set in the third: undecodable, FORMERR for ID 0xABCD -/
+example (a : Bool) (r : ServerResolver) : serveUdp a r [0xAB, 0xCD, 0x80] =
+    some [0xAB, 0xCD, 0x80, 0x81, 0, 0, 0, 0, 0, 0, 0, 0] := by
+  have hd : decodeMessage [0xAB, 0xCD, 0x80] = .error (.headerTooShort 0xABCD) := by decide
+  rw [srv_serveUdp_eq, C09_formerr a r _ _ hd (by decide)]
+  exact (C09_formerr_wire _).2.1
+
+/-- one octet: silence; a decodable response: silence -/
+example (a : Bool) (r : ServerResolver) : serveUdp a r [7] = none := by
+  rw [srv_serveUdp_eq, (C09_reply_iff a r [7]).mpr (.inl (by decide))]; rfl
+example (a : Bool) (r : ServerResolver) : serveUdp a r C09ex.responseBytes = none := by
+  have hd : decodeMessage C09ex.responseBytes =
+      .ok ⟨⟨1, true, 0, false, false, false, false, 0⟩, [], [], [], []⟩ := by decide
+  rw [srv_serveUdp_eq, (C09_reply_iff a r _).mpr (.inr ⟨_, hd, rfl⟩)]; rfl
+
+/-- TCP: 17 octets announced, three delivered → FORMERR behind `00 0C`; one delivered → nothing;
+    all delivered → the reply behind its length -/
+example (a : Bool) (r : ServerResolver) : serveTcp a r 17 [0x12, 0x34, 1] =
+    some [0, 12, 0x12, 0x34, 0x80, 0x81, 0, 0, 0, 0, 0, 0, 0, 0] := by
+  rw [C09_tcp_short_read_wire a r 17 [0x12, 0x34, 1] (by decide) (by decide)]
+  decide
+example (a : Bool) (r : ServerResolver) : serveTcp a r 17 [0x12] = none := by
+  rw [(C09_tcp_short_read a r 17 [0x12]).1 (by decide)]; rfl
+example : serveTcp false C09ex.failResolver 17 C09ex.rootQueryBytes =
+    some [0, 17, 0x12, 0x34, 0x81, 0x82, 0, 1, 0, 0, 0, 0, 0, 0, 0, 0, 1, 0, 1] := by
+  have hq : handleRawMessage false C09ex.failResolver C09ex.rootQueryBytes
+      = some (srvReplyOf false C09ex.rootQuery (.error .timeout)) := by
+    rw [srv_handle_query C09ex.rootQuery_decodes rfl rfl,
+      srv_rabr_question false _ _ _ (srv_triage_one_known rfl (by decide))]
+    rfl
+  rw [(C09_tcp_short_read false C09ex.failResolver 17 _).2 (by decide), hq]
+  decide
+
+/-- framing hypotheses are satisfiable on both sides of each limit -/
+example : ∃ out, udpFrame (List.replicate 600 0) = some out :=
+  ⟨_, srv_udpFrame_big (by rw [List.length_replicate]; decide)⟩
+example : ∃ out, udpFrame (List.replicate 512 0) = some out :=
+  ⟨_, srv_udpFrame_small (by rw [List.length_replicate]; decide) (by rw [List.length_replicate]; decide)⟩
+example : ∃ out, tcpFrame (List.replicate 70000 0) = some out :=
+  ⟨_, srv_tcpFrame_big (by rw [List.length_replicate]; decide)⟩
+example : udpFrame [1, 2, 7, 4, 5, 6, 7, 8, 9, 10, 11, 12] = some [1, 2, 5, 4, 5, 6, 7, 8, 9, 10, 11, 12] := by
+  decide
+/-- the resolver hypotheses of `C09_udp_reply_decodes` / `C09_no_fallback_for_serialisable_resolver` -/
+example : ∀ q b, srvResultWF (C09ex.authResolver q b) := fun _ _ => by
+  unfold C09ex.authResolver srvResultWF; decide
+example : ∀ q b rec, C09ex.authResolver q b = .ok rec → rec.rrs.length < 65536 := by
+  intro q b rec h; cases h; decide
 
 end Resolved
